@@ -288,6 +288,10 @@ class Engine:
                 with open(vo, encoding="utf-8", errors="replace") as f:
                     for l in f:
                         m = re.match(r"viol (case .*?) line=(\d+) reason=(\S+) at: (.*)", l.rstrip("\n"))
+                        if m and self.cfg.get("reasons") and not re.fullmatch(self.cfg["reasons"], m.group(3)):
+                            # belongs to another property served by the same engine
+                            self.stats["other_property_violations"] = self.stats.get("other_property_violations", 0) + 1
+                            continue
                         if m:
                             self.violations.append({"case": m.group(1), "line": int(m.group(2)),
                                                     "reason": m.group(3), "at": m.group(4), "trace": trace})
